@@ -152,7 +152,7 @@ func c18SubquerySeed(r *core.Rng) string {
 		q += " GROUP BY " + pick("c1", "c1, id") + pick("", " HAVING COUNT(*) > 1")
 	}
 	if r.P(40) {
-		q += " ORDER BY " + pick("id", "id DESC", "id ASC NULLS LAST", "c1 DESC NULLS FIRST, id", "1")
+		q += " ORDER BY " + pick("id", "id DESC", "id ASC NULLS LAST", "c1 DESC NULLS FIRST, id", "1", "id DESC NULLS FIRST", "c1 ASC NULLS LAST, id DESC NULLS FIRST", "id NULLS LAST")
 	}
 	if r.P(40) {
 		q += " " + pick("LIMIT 1", "LIMIT 50 PERCENT", "LIMIT 1 WITH TIES", "LIMIT 10 PERCENT WITH TIES", "LIMIT 1 OFFSET 1", "OFFSET 1", "FETCH FIRST 1 ROW ONLY", "OFFSET 1 ROW FETCH NEXT 2 ROWS WITH TIES", "FETCH FIRST 10 PERCENT ROWS ONLY")
@@ -354,6 +354,11 @@ type c18Replay struct {
 func c18Case(w *core.Worker, i int) {
 	r := w.Rng(i, "")
 	cur := filepath.Join(w.Work, "current-input.txt")
+	core.WriteFiles(w.Work, map[string]string{
+		"t1.csv": "id,c1\n1,b\n2,\n3,a\n4,b\n5,\n6,c\n,a\n",
+		"t2.csv": "id,c1\n2,x\n3,\n3,a\n7,b\n,\n",
+	})
+	subN := 0
 	sess, _ := core.NewSess(core.SessOpts{Dir: w.Work, Quiet: true})
 	defer sess.Close()
 	parsedN, errN, exprN, evalN := 0, 0, 0, 0
@@ -446,6 +451,19 @@ func c18Case(w *core.Worker, i int) {
 				viol("reprint-differs:"+reflect.TypeOf(e).Name(), fmt.Sprintf("printed %q, re-parsed and printed again %q", s1, s2), s1)
 				continue
 			}
+			_, isSub := e.(parser.Subquery)
+			if isSub && len(s1) < 600 {
+				// a sub-query used as a value carries its own tables: evaluated both ways over t1 / t2 (NULLs, duplicates)
+				v1, ok1 := c18Eval(sess, e)
+				v2, ok2 := c18Eval(sess, e2)
+				if ok1 && ok2 {
+					subN++
+					if v1 != v2 {
+						viol("reparse-value-differs:Subquery", fmt.Sprintf("the sub-query evaluates to %s, its printed form %q to %s", v1, s1, v2), s1)
+					}
+				}
+				_ = sess.Exec("ROLLBACK;")
+			}
 			if isClosedExpr(reflect.ValueOf(e), 0) && len(s1) < 300 {
 				v1, ok1 := c18Eval(sess, e)
 				v2, ok2 := c18Eval(sess, e2)
@@ -462,6 +480,7 @@ func c18Case(w *core.Worker, i int) {
 	w.Count("inputs_rejected_with_position", int64(errN))
 	w.Count("expressions_round_tripped", int64(exprN))
 	w.Count("closed_expressions_evaluated_both_ways", int64(evalN))
+	w.Count("subqueries_evaluated_both_ways", int64(subN))
 	if i < 3 {
 		w.Sample(map[string]interface{}{"example_seed": truncateStr(c18GenSeed(r), 200), "example_mutant": truncateStr(c18Mutate(r, c18GenSeed(r)), 200)})
 	}
